@@ -41,6 +41,9 @@ FLAVOURS = {
     "pure": (["pure"], True, True, "release"),
     "nostd": ([], False, True, "release"),
     "plain": (["cshim", "b3"], True, True, "plain"),
+    # compile-time SIMD ceilings with the hooks on (MAX_SIMD_DEGREE 4 and 1: array sizing and cfg-dependent code)
+    "max_sse41": (["no_avx512", "no_avx2"], True, True, "release"),
+    "portable_only": (["no_avx512", "no_avx2", "no_sse41", "no_sse2"], True, True, "release"),
     "stock_no_avx512": (["no_avx512"], True, False, "release"),
     "stock_no_avx2": (["no_avx512", "no_avx2"], True, False, "release"),
     "stock_no_sse41": (["no_avx512", "no_avx2", "no_sse41"], True, False, "release"),
@@ -53,8 +56,8 @@ PROP_FLAVOURS = {
     "C01": {"quick": ["asm"], "thorough": ["asm", "plain"]},
     "C02": {"quick": ["asm"], "thorough": ["asm", "plain"]},
     "C03": {"quick": ["asm"], "thorough": ["asm", "plain"]},
-    "C04": {"quick": ["asm", "intr", "pure", "nostd"],
-            "thorough": ["asm", "intr", "pure", "nostd", "plain", "stock", "stock_no_avx512", "stock_no_avx2", "stock_no_sse41", "stock_no_sse2"]},
+    "C04": {"quick": ["asm", "intr", "pure", "nostd", "max_sse41", "portable_only"],
+            "thorough": ["asm", "intr", "pure", "nostd", "max_sse41", "portable_only", "plain", "stock", "stock_no_avx512", "stock_no_avx2", "stock_no_sse41", "stock_no_sse2"]},
     "C05": {"quick": ["asm", "intr", "pure"], "thorough": ["asm", "intr", "pure", "plain"]},
     "C06": {"quick": ["asm"], "thorough": ["asm", "plain"]},
     "C07": {"quick": ["asm"], "thorough": ["asm", "intr", "pure", "plain"]},
